@@ -150,7 +150,7 @@ def oracle(ctx, info):
             return
     got = info.rankings()
     opt, mins = info.ref.optimum
-    tol = 1e-9 * max(1.0, abs(opt))
+    tol = 1e-9
     try:
         flag = c.necessarily_optimal
     except Exception as e:
